@@ -104,6 +104,14 @@ def check_equalities(ck, F, rule_prefix):
                 a, b = t[2], t[3]
                 if subst(b, ('param', 0), this) != a and subst(a, ('param', 0), this) != b:
                     problems.append('different projections are compared: ' + contracts.render(t, st, {})[:100])
+                # identity is equality only for what is one object per spelling (an interned String): two Linkage / convention /
+                # transfer *values* with the same spelling can be different objects (the library's constant, the table's element)
+                if isinstance(a, tuple) and a[:1] == ('addr',) and isinstance(a[1], tuple) and a[1][:1] in (('call',), ('vcall',)):
+                    g = F.fn.get(a[1][1]) or next((m for r_ in F.rec.values() for m in r_.get('methods', []) if m['id'] == a[1][1]), None)
+                    ret = ((g or {}).get('ret') or '').replace('const ', '').replace('&', '').strip()
+                    if ret in COMPONENTS:
+                        problems.append(f'the addresses of two {contracts.short(ret)} values are compared ({contracts.render(t, st, {})[:90]}): values '
+                                        'spelled alike need not be one object')
                 for c in comps:
                     if mentions(a, c) and mentions(b, c):
                         seen.add(c)
